@@ -99,7 +99,7 @@ ApplyOp(st, o) ==
          IF \E a \in D : Protected(w, a, now) THEN Panic(st)
          ELSE LET wc == [DestroyAll(w, D) EXCEPT !.touched = {}, !.sd = {}, !.logs = <<>>, !.refund = 0, !.orig = EmptyFn,
                                                  !.al = {}, !.als = {}, !.tstor = EmptyFn]
-              IN R([st EXCEPT !.base = wc, !.cur = wc, !.alive = FALSE], "ok", 0)
+              IN R([st EXCEPT !.base = wc, !.cur = wc, !.saved = <<>>, !.alive = FALSE], "ok", 0)
     [] o.op = "Discard" -> R([st EXCEPT !.alive = FALSE], "ok", 0)
 
 Apply(st, o) == IF ~st.alive /\ o.op # "Discard" THEN R(st, "dead", 0) ELSE ApplyOp(st, o)
